@@ -14,7 +14,7 @@ def run(ctx):
         rows, r = klog.generate(ctx, "KLog_gen32.cfg" if ctx.tier == "quick" else "KLog_gen32t.cfg", "klog_gen32")
         core.write_ndjson(inp, rows)
         stride = 3 if ctx.tier == "quick" else 1
-    rc, o = ctx.go_test("./c32/", run="TestReplay", env={"VERIF_CASES": inp, "VERIF_STRIDE": stride}, timeout=2400)
+    rc, o = ctx.go_test("./c32/", run="TestReplay", env={"VERIF_CASES": inp, "VERIF_STRIDE": stride}, timeout=2400 if ctx.tier == "quick" else 7200)
     res = ctx.go_results(o)
     stats = [r for r in res if r.get("kind") == "stat"]
     if len(stats) != 1:
